@@ -55,6 +55,7 @@ type Opts struct {
 	NoNestedMain bool
 	NoSameBase   bool // no two main packages with the same directory base name (binaries are named by it)
 	NoLookAlikes bool // no packages whose path extends a tracking package path
+	InnerMain    bool // always nest a main package below another main's directory, in hack/gen (sorts before the entry file)
 	Twins        bool // always add the byte-identical twin files and the point-free changed files (threads e2e)
 	PkgDirNotes  bool // always put the hand-written NOTES.md into internal/cov (a possible tracking package path)
 }
@@ -183,11 +184,14 @@ func Generate(r *rand.Rand, o Opts) *Project {
 	}
 	// a main package nested below another main's directory (mainEntries selections must not
 	// match it by prefix)
-	if !o.NoNestedMain && r.Intn(3) == 0 {
+	if !o.NoNestedMain && (o.InnerMain || r.Intn(3) == 0) {
 		for _, pk := range p.Pkgs {
 			if pk.IsMain && pk.Dir != "." {
 				// "hack" sorts before the entry file of the outer package, "tools" after it
 				sub := []string{"/tools/dump", "/hack/gen"}[r.Intn(2)]
+				if o.InnerMain {
+					sub = "/hack/gen"
+				}
 				nm := &Pkg{Dir: pk.Dir + sub, Name: "main", IsMain: true}
 				for j := 0; j < nLibs; j++ {
 					if j != orphan && r.Intn(100) < 50 {
